@@ -101,7 +101,9 @@ class C26(Prop):
                   'value returned from the cache was put by a finished load less than lifetime ago and waiters receive exactly the value '
                   'their load returned; at most one load per key is in flight (loads started = loads ended + [in flight]) and a lookup during '
                   'a load only joins it; a lookup raises only if it was itself cancelled or the load it was waiting for failed; cancelling a '
-                  'caller leaves the load and the other waiters alone. The same failure-locality statement is proved FALSE for a model of '
+                  'caller leaves the load and the other waiters alone; several cache instances in one process are a product of independent '
+                  'caches (frame property: a block of one instance changes no other; every value an instance returns comes from its own '
+                  'load function). The same failure-locality statement is proved FALSE for a model of '
                   'the code before the repair e8ccd243b. The model is tied to the real TimeLimitedMaxSizeCache by comparing (clock, cache '
                   'contents with expiry, loads in flight, who waits for what, loads started and caller outcomes) after every op of random '
                   'and exhaustive small op sequences.')
@@ -110,7 +112,9 @@ class C26(Prop):
                   'deterministic loop, modelled from their documented behaviour; shutdown() is not modelled; prometheus metrics are inert stubs.')
     budget = {'quick': 2500, 'thorough': 30000}
     search_budget = {'quick': 3000, 'thorough': 30000}
-    rule = ('case = (lifetime in ticks, num_slots, op sequence); lookups are tasks running the real lookup(k); the load function blocks on a '
+    rule = ('case = (lifetime in ticks, num_slots, op sequence) — or several cache instances alive at once (`caches`: own load '
+            'function, lifetime and size each; ops addressed `@ j`; equal keys across instances, overlapping loads; the answer line is '
+            'the instances\' lines joined) —; lookups are tasks running the real lookup(k); the load function blocks on a '
             'harness gate; op ok/fail opens the gate of the load in flight for that key with a value (an int, None, 0, \'\' or []) / '
             'LoadError; op x cancels a caller '
             'task; op adv moves the virtual clock that time.monotonic_ns reads; op g issues a load completion and one or two lookups in the SAME '
@@ -189,6 +193,53 @@ class C26(Prop):
             ops.append(op)
         return {'L': L, 'slots': slots, 'ops': ops}
 
+    def _random_multi_case(self, rng):
+        """two or three cache instances alive at once (own loader, lifetime, size), EQUAL keys across them, overlapping loads"""
+        m = rng.choice([2, 2, 3])
+        cfgs = [[rng.choice([1, 2, 3]), rng.choice([1, 2])] for _ in range(m)]
+        nkeys = rng.choice([1, 2, 2])
+        ncallers = rng.choice([3, 4, 5])
+        sims = [_Sim(l, n) for l, n in cfgs]
+        ops = []
+        v = 0
+        for _ in range(rng.choice([5, 8, 10, 12, 14])):
+            waiting = sorted(x for sm in sims for x in sm.waiting())
+            j = rng.randrange(m)
+            sim = sims[j]
+            choices = []
+            if len(waiting) < ncallers:
+                choices += ['l'] * 4
+            if sim.inflight:
+                choices += ['ok'] * 3 + ['fail']
+            if sim.waiting():
+                choices += ['x']
+            choices += ['adv']
+            kind = rng.choice(choices)
+            if kind == 'l':
+                # prefer a key that another instance is loading or caching right now
+                hot = [k for sm in sims if sm is not sim for k in list(sm.inflight) + list(sm.cache)]
+                k = rng.choice(hot) if hot and rng.random() < 0.7 else rng.randrange(nkeys)
+                op = ['l', rng.choice([i for i in range(ncallers) if i not in waiting]), k]
+            elif kind == 'ok':
+                v += 1
+                op = ['ok', rng.choice(sorted(sim.inflight)), 100 * (j + 1) + v if rng.random() < 0.85 else None]
+                free = [i for i in range(ncallers) if i not in waiting]
+                if free and rng.random() < 0.2:
+                    op = ['g', [op, ['l', free[0], op[1]]]]
+            elif kind == 'fail':
+                op = ['fail', rng.choice(sorted(sim.inflight))]
+            elif kind == 'x':
+                op = ['x', rng.choice(sim.waiting())]
+            else:
+                dt = rng.choice([1, 1, 2, 3])
+                for sm in sims:
+                    sm.apply(['adv', dt])
+                ops.append(['adv', dt])
+                continue
+            sim.apply(op)
+            ops.append(['@', j, op])
+        return {'caches': cfgs, 'L': cfgs[0][0], 'slots': cfgs[0][1], 'ops': ops}
+
     def _exhaustive(self, L, slots, length, nkeys, ncallers, dts, with_none=False):
         """every well-formed op sequence of exactly `length` ops (callers and keys are interchangeable: a lookup uses the smallest free
         caller id and a key already used or the next fresh one; no two clock advances in a row)"""
@@ -234,13 +285,16 @@ class C26(Prop):
         for i in range(n):
             # a quarter of the cases: almost every load returns None / a falsy value (repeat lookups, evictions and expiries of
             # such entries)
+            if i % 5 == 4:
+                yield self._random_multi_case(rng)      # several cache instances with equal keys
+                continue
             yield self._random_case(rng, 0.15 if i % 4 == 0 else 0.7)
 
     def search_cases(self, rng, n, hint):
         for slots in (1, 2):
             yield from self._exhaustive(2, slots, 5, 3, 4, (1, 2))
-        for _ in range(n):
-            yield self._random_case(rng)
+        for i in range(n):
+            yield self._random_multi_case(rng) if i % 3 == 0 else self._random_case(rng)
 
     # ---- model ---------------------------------------------------------------------------------
     @staticmethod
@@ -249,43 +303,56 @@ class C26(Prop):
                 {'l': 'lookup {} {}', 'fail': 'fail {}', 'x': 'cancel {}', 'adv': 'adv {}'}[o[0]].format(*o[1:]))
 
     def model_lines(self, c):
-        out = ['reset', f"cfg {c['L']} {c['slots']}"]
-        for o in c['ops']:
-            if o[0] == 'g':
-                out.append('group ' + ' ; '.join(self._op_line(x) for x in o[1]))
-                continue
-            out.append(('ok {} {}'.format(o[1], tok(pyval(o[2]))) if o[0] == 'ok' else
-                       {'l': 'lookup {} {}', 'fail': 'fail {}', 'x': 'cancel {}', 'adv': 'adv {}'}[o[0]].format(*o[1:])))
+        multi = bool(c.get('caches'))
+        out = ['reset', ('mcfg ' + ' '.join(f'{l} {n}' for l, n in self._cfgs(c))) if multi else f"cfg {c['L']} {c['slots']}"]
+        for o0 in c['ops']:
+            j, o = self._addr(o0)
+            ln = ('group ' + ' ; '.join(self._op_line(x) for x in o[1])) if o[0] == 'g' else self._op_line(o)
+            out.append(ln if (not multi or o[0] == 'adv') else f'at {j} {ln}')
         return out
 
     # ---- real code -----------------------------------------------------------------------------
+    @staticmethod
+    def _cfgs(c):
+        """[(lifetime, slots), …] of the cache instances of a case (one instance unless the case has `caches`)"""
+        return [tuple(x) for x in c['caches']] if c.get('caches') else [(c['L'], c['slots'])]
+
+    @staticmethod
+    def _addr(op):
+        """(instance, op) — ops of multi-instance cases are addressed `['@', j, op]`; `adv` is global"""
+        return (op[1], op[2]) if op[0] == '@' else (0, op)
+
     def impl(self, c):
         s = aloop.Sched()
         t0 = s.loop._vtime
         # a load that fails after all its callers were cancelled leaves a task whose exception nobody retrieves; asyncio reports
         # that through the loop's exception handler when the task is collected — not an observable of this property
         s.loop.set_exception_handler(lambda loop, ctx: None)
+        cfgs = self._cfgs(c)
+        m = len(cfgs)
         try:
             with aloop.patch_time(s.loop):
                 import time
                 t0ns = time.monotonic_ns()
-                running = {}     # k -> [n, ...] load-function invocations that are inside the body, oldest first
-                count = {}
-                started = []
+                running = [dict() for _ in range(m)]    # per instance: k -> [n, …] invocations of ITS load function inside the body
+                count = [dict() for _ in range(m)]
+                started = [[] for _ in range(m)]
 
-                async def load(k):
-                    n = count[k] = count.get(k, 0) + 1
-                    running.setdefault(k, []).append(n)
-                    started.append(k)
-                    try:
-                        return await s.gate(('load', k, n))
-                    finally:
-                        running[k].remove(n)
+                def make_load(j):
+                    async def load(k):
+                        n = count[j][k] = count[j].get(k, 0) + 1
+                        running[j].setdefault(k, []).append(n)
+                        started[j].append(k)
+                        try:
+                            return await s.gate(('load', j, k, n))
+                        finally:
+                            running[j][k].remove(n)
+                    return load
 
-                cache = self.Cache(load, c['L'] * TICK_NS, c['slots'], 'verif')
-                callers = {}     # c -> [task, key, state] of the latest lookup of caller id c; state: new | waiting | done
+                caches = [self.Cache(make_load(j), cfgs[j][0] * TICK_NS, cfgs[j][1], f'verif{j}') for j in range(m)]
+                callers = {}     # c -> [task, key, state, instance] of the latest lookup of caller id c; state: new | waiting | done
 
-                def consistency():
+                def consistency(cache):
                     """the internal-consistency invariant of the real object: the value dict, the expiry dict and the expiry index
                     hold the same keys, and the index is sorted by expiry"""
                     try:
@@ -299,15 +366,16 @@ class C26(Prop):
                     except Exception as e:     # noqa: the index itself is broken
                         return f'BAD-{type(e).__name__}'
 
-                def line():
+                def segment(j):
+                    cache = caches[j]
                     ents = ','.join(f'{k}:{tok(cache._cache[k])}:{(cache._expiry_time[k] - t0ns) // TICK_NS}' for k in sorted(cache._cache))
-                    f = ','.join(str(k) for k in sorted(k for k, ns in running.items() for _ in ns))
-                    w = ','.join(f'{i}:{r[1]}' for i, r in sorted(callers.items()) if not r[0].done())
-                    ev = [f'start:{k}' for k in sorted(started)]
-                    del started[:]
+                    f = ','.join(str(k) for k in sorted(k for k, ns in running[j].items() for _ in ns))
+                    w = ','.join(f'{i}:{r[1]}' for i, r in sorted(callers.items()) if r[3] == j and not r[0].done())
+                    ev = [f'start:{k}' for k in sorted(started[j])]
+                    del started[j][:]
                     for i, r in sorted(callers.items()):
-                        t, _k, state = r
-                        if state == 'done':
+                        t, _k, state, inst = r
+                        if state == 'done' or inst != j:
                             continue
                         if not t.done():
                             if state == 'new':
@@ -322,11 +390,21 @@ class C26(Prop):
                             ev.append(f'fail:{i}' if isinstance(e, LoadError) else f'exc:{i}:{type(e).__name__}')
                         else:
                             ev.append(f"{'got' if state == 'waiting' else 'hit'}:{i}:{tok(t.result())}")
-                    return f"t={int(s.loop._vtime - t0)} c={ents} f={f} w={w} i={consistency()} e={','.join(ev)}"
+                    return f"t={int(s.loop._vtime - t0)} c={ents} f={f} w={w} i={consistency(cache)} e={','.join(ev)}"
+
+                def line():
+                    return ' || '.join(segment(j) for j in range(m))
+
+                def busy(i):
+                    return i in callers and not callers[i][0].done()
 
                 out = ['ok', line()]
-                for op in c['ops']:
+                for op0 in c['ops']:
+                    j, op = self._addr(op0)
                     kind = op[0]
+                    if not 0 <= j < m:
+                        out.append('err')
+                        continue
                     if kind == 'g':
                         # several actions in ONE turn of the event loop: a load completion is delivered and lookups are issued
                         # before the loop runs again (so before any done-callback of the finished load task has run)
@@ -334,9 +412,9 @@ class C26(Prop):
                         bad = False
                         for o in sub:
                             if o[0] == 'l':
-                                bad = bad or (o[1] in callers and not callers[o[1]][0].done())
+                                bad = bad or busy(o[1])
                             elif o[0] in ('ok', 'fail'):
-                                bad = bad or not running.get(o[1])
+                                bad = bad or not running[j].get(o[1])
                             else:
                                 bad = True
                         if bad or len({o[1] for o in sub if o[0] == 'l'}) < sum(1 for o in sub if o[0] == 'l') \
@@ -345,33 +423,33 @@ class C26(Prop):
                             continue
                         for o in sub:
                             if o[0] == 'l':
-                                callers[o[1]] = [s.spawn(('caller', o[1], len(out)), cache.lookup(o[2]), settle=False), o[2], 'new']
+                                callers[o[1]] = [s.spawn(('caller', o[1], len(out)), caches[j].lookup(o[2]), settle=False), o[2], 'new', j]
                             elif o[0] == 'ok':
-                                s.open(('load', o[1], running[o[1]][0]), value=pyval(o[2]), settle=False)
+                                s.open(('load', j, o[1], running[j][o[1]][0]), value=pyval(o[2]), settle=False)
                             else:
-                                s.open(('load', o[1], running[o[1]][0]), exc=LoadError(f'load of {o[1]} failed'), settle=False)
+                                s.open(('load', j, o[1], running[j][o[1]][0]), exc=LoadError(f'load of {o[1]} failed'), settle=False)
                         s.settle()
                         out.append(line())
                         continue
                     if kind == 'l':
                         _, i, k = op
-                        if i in callers and not callers[i][0].done():
+                        if busy(i):
                             out.append('err')
                             continue
-                        callers[i] = [s.spawn(('caller', i, len(out)), cache.lookup(k)), k, 'new']
+                        callers[i] = [s.spawn(('caller', i, len(out)), caches[j].lookup(k)), k, 'new', j]
                     elif kind in ('ok', 'fail'):
                         k = op[1]
-                        if not running.get(k):
+                        if not running[j].get(k):
                             out.append('err')
                             continue
-                        n = running[k][0]
+                        n = running[j][k][0]
                         if kind == 'ok':
-                            s.open(('load', k, n), value=pyval(op[2]))
+                            s.open(('load', j, k, n), value=pyval(op[2]))
                         else:
-                            s.open(('load', k, n), exc=LoadError(f'load of {k} failed'))
+                            s.open(('load', j, k, n), exc=LoadError(f'load of {k} failed'))
                     elif kind == 'x':
                         i = op[1]
-                        if i in callers and not callers[i][0].done():
+                        if busy(i) and callers[i][3] == j:
                             callers[i][0].cancel()
                         s.settle()
                     else:
@@ -393,19 +471,44 @@ class C26(Prop):
     def _walk(self, c, out):
         """per op: (index, op, parsed line or None); everything from the REAL output"""
         for k, (op, ln) in enumerate(zip(c['ops'], out[2:])):
-            yield k, op, (None if ln == 'err' else self._parse(ln))
+            yield k, self._addr(op)[1], (None if ln == 'err' else self._parse(ln.split(' || ')[self._addr(op)[0]] if ' || ' in ln else ln))
 
     def oracle(self, c, out):
         if out and out[0].startswith('IMPL-EXC'):
             return out[0]
-        L, slots = c['L'], c['slots']
+        cfgs = self._cfgs(c)
+        for j, (L, slots) in enumerate(cfgs):
+            # the property per cache instance, on ITS part of every line: ops addressed to another instance must leave it alone
+            seq = []
+            prev = None
+            for idx, (op0, ln) in enumerate(zip(c['ops'], out[2:])):
+                if ln == 'err':
+                    continue
+                segs = ln.split(' || ')
+                if len(segs) != len(cfgs):
+                    return f'after op {idx}: malformed line {ln!r}'
+                d = self._parse(segs[j])
+                jj, op = self._addr(op0)
+                mine = jj == j or op[0] == 'adv'
+                if not mine:
+                    if d['e'] or (prev is not None and (d['c'], d['f'], d['w']) != (prev['c'], prev['f'], prev['w'])):
+                        return (f'after op {idx} {op0}: cache instance {j} changed ({segs[j]}) although the op was addressed to instance '
+                                f'{jj}: the instances of a process must not share state (every value an instance returns comes from '
+                                f'its OWN load function)')
+                else:
+                    seq.append((idx, op, d, f' [instance {j}]' if len(cfgs) > 1 else ''))
+                prev = d
+            msg = self._oracle_instance(L, slots, seq)
+            if msg:
+                return msg
+        return None
+
+    def _oracle_instance(self, L, slots, seq):
         t = 0
         awaiting = {}        # caller -> key of the lookup it is suspended in
         puts = {}            # key -> [(value, time)] values the load function returned
-        for idx, op, d in self._walk(c, out):
-            if d is None:
-                continue     # the harness refused the op (not a behaviour): nothing happened
-            at = f'after op {idx} {op}'
+        for idx, op, d, tag in seq:
+            at = f'after op {idx} {op}{tag}'
             sub = op[1] if op[0] == 'g' else [op]        # the atomic blocks of this loop turn, in the order they were issued
             looks = {o[1]: o[2] for o in sub if o[0] == 'l'}                     # caller -> key of a lookup issued in this turn
             oks = {o[1]: tok(pyval(o[2])) for o in sub if o[0] == 'ok'}          # key -> value of a load that finished now
@@ -462,8 +565,18 @@ class C26(Prop):
         return None
 
     def classify(self, c, out):
-        tags = [f"len={min(len(c['ops']), 14)}", f"slots={c['slots']}", f"L={c['L']}"]
+        cf = self._cfgs(c)
+        tags = [f"len={min(len(c['ops']), 14)}", f"slots={cf[0][1]}", f"L={cf[0][0]}", f"instances={len(cf)}"]
         seen = set()
+        if len(cf) > 1:
+            for ln in out[2:]:
+                if ln != 'err' and ' || ' in ln:
+                    fs = [set(self._parse(x)['f']) for x in ln.split(' || ')]
+                    if any(fs[a] & fs[b] for a in range(len(fs)) for b in range(a + 1, len(fs))):
+                        seen.add('equal-key-loading-in-two-instances')
+                    cs = [{x.split(':')[0] for x in self._parse(y)['c']} for y in ln.split(' || ')]
+                    if any(cs[a] & cs[b] for a in range(len(cs)) for b in range(a + 1, len(cs))):
+                        seen.add('equal-key-cached-in-two-instances')
         prev = []
         for idx, op, d in self._walk(c, out):
             if d is None:
@@ -513,8 +626,8 @@ class C26(Prop):
     def shrink(self, c, fails):
         if not fails(c):
             return c
-        ops = generic_shrink_list(c['ops'], lambda ops: fails({'L': c['L'], 'slots': c['slots'], 'ops': ops}))
-        return {'L': c['L'], 'slots': c['slots'], 'ops': ops}
+        ops = generic_shrink_list(c['ops'], lambda ops: fails(dict(c, ops=ops)))
+        return dict(c, ops=ops)
 
 
 PROP = C26()
